@@ -56,3 +56,23 @@ Theorem C14_tombstone_forever : forall ops s a v,
   exists v', l_val (lk_run s ops) !! a = Some v' /\ v_status v' = Tombstoned.
 Proof. exact tombstone_forever. Qed.
 Print Assumptions C14_tombstone_forever.
+
+(* a tombstoned validator has no voting power in any reachable state, and is not a member of the recorded
+   validator set after any EndBlocker - whatever was locked to it in between *)
+From Goat Require Import Proofs.LockingDerived Proofs.LockingDerivedLink Proofs.LockingActive Proofs.LockingTomb.
+Theorem C14_tombstoned_no_power : forall p rem goat gas acc ops,
+  0 <= lp_slash_down p <= one18 -> 0 <= lp_slash_double p <= one18 -> Forall wf_op ops ->
+  forall a v, l_val (lk_run (empty_lstate p rem goat gas acc) ops) !! a = Some v -> v_status v = Tombstoned -> v_power v = 0%N.
+Proof. intros p rem goat gas acc ops H1 H2 W. exact (reachable_zinv p rem goat gas acc ops H1 H2 W). Qed.
+Print Assumptions C14_tombstoned_no_power.
+
+Theorem C14_tombstoned_never_member : forall p rem goat gas acc ops s' ups,
+  0 <= lp_slash_down p <= one18 -> 0 <= lp_slash_double p <= one18 -> Forall wf_op ops ->
+  end_block (lk_run (empty_lstate p rem goat gas acc) ops) = Ok (s', ups) ->
+  forall a v, l_val s' !! a = Some v -> v_status v = Tombstoned -> l_set s' !! a = None.
+Proof.
+  intros p rem goat gas acc ops s' ups H1 H2 W E a v Ev St.
+  destruct (reachable_all p rem goat gas acc ops H1 H2 W) as [D [A M]].
+  pose proof (end_block_set_spec _ _ _ (di_rank _ D) A E a) as Hs. rewrite Hs, Ev. cbn. rewrite St. reflexivity.
+Qed.
+Print Assumptions C14_tombstoned_never_member.
